@@ -74,12 +74,10 @@ theorem ssGuard_nnf {R : Nat} (cx : Ctx) (t : Nat) (sf0 : Rec) (w0 w : World) (h
   unfold ssGuard
   split
   · dsimp only
-    have hr : isFailedR (if (!sf0.isOverride) = true then setOverride (ev w (.warnOverride t)) t sf0 cx.runid else sf0) R = true →
+    have hr : isFailedR (setOverride (ev w (.warnOverride t)) t sf0 cx.runid) R = true →
         FailedNow R w0 t := by
       intro h
-      split at h
-      · rw [isFailedR_none (setOverride_failed _ _ _ _)] at h; cases h
-      · exact hsf h
+      rw [isFailedR_none (setOverride_failed _ _ _ _)] at h; cases h
     exact ⟨NoNewFail.setRec' (h0.trans (NoNewFail.of_recs rfl)) t _ hr, hr⟩
   · exact ⟨h0, hsf⟩
 
